@@ -60,7 +60,11 @@ PROPS = {
              "distinct = distinct hash of the full event trace",
         state_measure="hash of the (term, role, commit, last index) vector over all nodes after each phase",
         components=REAL_E3,
-        assumptions=["storage contract: what the harness persisted before send/apply survives a crash, nothing else",
+        assumptions=["storage contract (write-behind, as a WAL): what a Ready with MustSync=true or a snapshot hands over, and "
+                     "everything written before it, survives a crash; what Readys with MustSync=false wrote since the last such "
+                     "sync is lost as a whole or not at all (tape choice) - losing an unsynced commit index is legal, losing a "
+                     "term, vote or entries the node already answered messages on is a violation; messages leave only after "
+                     "their Ready's write",
                      "a node that never persisted anything restarts as a fresh node"],
         quick=dict(wall=40), thorough=dict(wall=900),
     ),
@@ -245,7 +249,7 @@ PROPS["C08"] = dict(
 PROPS["C14"] = dict(
     engine="e2", level="exploration",
     rule="one evaluation = one seeded differential run: a program of 6-30 commands over all families whose arguments carry the run's feature "
-         "set (spaces, empty strings, CR/LF, non-UTF-8 bytes, mixed case, filtered commands; a third of the runs plain) is executed through "
+         "set (spaces, empty strings, CR/LF, non-UTF-8 bytes, mixed case, the filtered commands PUBLISH and SUBSCRIBE in every letter case incl. subscribe-then-publish on one channel; a third of the runs plain) is executed through "
          "a standalone Manager.ExecCommand and through a simulated 1-node or 3-node cluster, fault-free or with message drops/reordering and a "
          "leader isolation; oracle = i-th replies equal (unordered collections as multisets, errors by class) and the final keyspace dump of "
          "every replica equals the standalone dump; non-trivial = at least 3 replies compared; distinct = distinct trace hash",
